@@ -27,8 +27,8 @@ func decodeElementInitValueVector(r *bytes.Reader) ([]wasm.Index, error) {
 		return nil, fmt.Errorf("get size of vector: %w", err)
 	}
 
-	vec := make([]wasm.Index, vs)
-	for i := range vec {
+	vec := make([]wasm.Index, vectorCap(vs, r))
+	for i := uint32(0); i < vs; i++ {
 		u32, _, err := leb128.DecodeUint32(r)
 		if err != nil {
 			return nil, fmt.Errorf("read function index: %w", err)
@@ -37,7 +37,7 @@ func decodeElementInitValueVector(r *bytes.Reader) ([]wasm.Index, error) {
 		if u32 >= wasm.MaximumFunctionIndex {
 			return nil, fmt.Errorf("too large function index in Element init: %d", u32)
 		}
-		vec[i] = u32
+		*elementAt(&vec, i) = u32
 	}
 	return vec, nil
 }
@@ -47,8 +47,8 @@ func decodeElementConstExprVector(r *bytes.Reader, elemType wasm.RefType, enable
 	if err != nil {
 		return nil, fmt.Errorf("failed to get the size of constexpr vector: %w", err)
 	}
-	vec := make([]wasm.Index, vs)
-	for i := range vec {
+	vec := make([]wasm.Index, vectorCap(vs, r))
+	for i := uint32(0); i < vs; i++ {
 		var expr wasm.ConstantExpression
 		err := decodeConstantExpression(r, enabledFeatures, &expr)
 		if err != nil {
@@ -63,18 +63,18 @@ func decodeElementConstExprVector(r *bytes.Reader, elemType wasm.RefType, enable
 			if v >= wasm.MaximumFunctionIndex {
 				return nil, fmt.Errorf("too large function index in Element init: %d", v)
 			}
-			vec[i] = v
+			*elementAt(&vec, i) = v
 		case wasm.OpcodeRefNull:
 			if elemType != expr.Data[0] {
 				return nil, fmt.Errorf("element type mismatch: want %s, but constexpr has %s",
 					wasm.RefTypeName(elemType), wasm.RefTypeName(expr.Data[0]))
 			}
-			vec[i] = wasm.ElementInitNullReference
+			*elementAt(&vec, i) = wasm.ElementInitNullReference
 		case wasm.OpcodeGlobalGet:
 			i32, _, _ := leb128.LoadInt32(expr.Data)
 			// Resolving the reference type from globals is done at instantiation phase. See the comment on
 			// wasm.elementInitImportedGlobalReferenceType.
-			vec[i] = wasm.WrapGlobalIndexAsElementInit(wasm.Index(i32))
+			*elementAt(&vec, i) = wasm.WrapGlobalIndexAsElementInit(wasm.Index(i32))
 		default:
 			return nil, fmt.Errorf("const expr must be either ref.null or ref.func but was %s", wasm.InstructionName(expr.Opcode))
 		}
